@@ -44,7 +44,9 @@ META = {
     "assumptions": [
         "operand widths enumerated up to the stated bound W (all values and all nesting depths "
         "per enumerated shape combination; widths above W are covered only by the unbounded "
-        "shape lemmas of C10/C01.1)",
+        "shape lemmas of C10/C01.1); nesting is covered by the inductive step (operands are signals with arbitrary canonical "
+        "values, intermediate values satisfy the raw contract) and, directly, by 60 (quick) / 500 (thorough) nested expressions "
+        "drawn from the operator grammar with a fixed seed (depth <= 3, 2-3 signals of width <= 3), all values",
         "operand raw values range over [-2^w, 2^w) (the tight RHS contract); every producer is "
         "proved to stay inside it",
         "_PySignalState.update is used through its contract next' == (next & ~mask) | (value & mask) "
@@ -179,6 +181,7 @@ def all_templates(tier):
     ]
     for test_sh, cases, shs in sv:
         ts.append(("switchvalue", test_sh, cases, shs))
+    ts += [("nested", k) for k in range(T.N_NESTED["quick" if tier == "quick" else "thorough"])]
     return ts
 
 
